@@ -13,16 +13,31 @@ class CallTimeout(Exception):
 
 
 def with_alarm(seconds, fn):
+    """run fn() under a SIGALRM limit. The code under test may swallow the exception raised by the handler (einx.matches has a bare `except:` and would answer
+    False; other layers wrap exceptions): whatever fn() returns or raises after the alarm has fired is discarded and reported as a timeout."""
+    fired = []
+
     def h(*a):
+        fired.append(1)
         raise CallTimeout()
 
     old = signal.signal(signal.SIGALRM, h)
     signal.alarm(int(seconds))
     try:
-        return fn()
+        try:
+            r = fn()
+        except CallTimeout:
+            raise
+        except BaseException:
+            if fired:
+                raise CallTimeout() from None
+            raise
     finally:
         signal.alarm(0)
         signal.signal(signal.SIGALRM, old)
+    if fired:
+        raise CallTimeout()
+    return r
 
 
 def outcome(fn, seconds=15):
